@@ -26,6 +26,7 @@ import (
 func init() { register("C04", runC04) }
 
 type c04Judge struct {
+	replayPrev *dtVal // replay of a two-rows case: the first row's value
 	c   *Ctx
 	agg *dtAgg
 }
@@ -59,6 +60,25 @@ func (j *c04Judge) visit(acc *dtAcc, vr *dtVariant, v *dtVal, pk bool) {
 	}
 	lv := dtToLib(vr, v)
 
+	// now and then the round trip is preceded by a call the library refuses
+	// (a Go value of the wrong type or width for the data type, the kind of
+	// slip a driver's caller makes): the refusal must leave nothing behind
+	// for the next, valid call
+	if acc.evals%64 == 3 && v.K != dkTime && v.K != dkDec && v.K != dkMoney {
+		var wrong interface{} = int64(0x1122334455667788)
+		if _, is64 := lv.(int64); is64 {
+			wrong = int16(0x1122)
+		}
+		o := dtLibBytes(vr, wrong, dtLengthArg(vr, v))
+		switch {
+		case o.panic != nil:
+			acc.counts["refused_call_first/panicked_unjudged"]++
+		case o.err != nil:
+			acc.counts["refused_call_first/refused"]++
+		default:
+			acc.counts["refused_call_first/accepted"]++
+		}
+	}
 	// ---- leg 1: GoValue(Bytes(v)) == v
 	acc.evals++
 	enc := dtLibBytes(vr, lv, dtLengthArg(vr, v))
@@ -171,6 +191,58 @@ func (j *c04Judge) visit(acc *dtAcc, vr *dtVariant, v *dtVal, pk bool) {
 		want := dtGridBelow(vr, v, re.canonical) // the value the reference bytes denote
 		if ok, why := dtSameValue(vr, &want, rgot, pmode, rtol); !ok {
 			j.viol("row", vr, v, reg, fmt.Sprintf("%s: reference row with data %s decoded as: %s", dtDescribe(&want), dtHex(re.bs), why), "row", re.bs)
+			return
+		}
+	}
+	// ---- leg 4: two rows under one format; the first row's value is read
+	// after the second row was decoded
+	if acc.prev == nil {
+		acc.prev = map[string]*dtVal{}
+	}
+	acc.nth++
+	prev := acc.prev[vr.label()]
+	if j.replayPrev != nil {
+		prev = j.replayPrev
+	} else if acc.nth%8 != 0 {
+		prev = nil
+	}
+	cp := *v
+	acc.prev[vr.label()] = &cp
+	if prev != nil {
+		j.twoRows(acc, vr, prev, v, maxLen, pmode, rtol, reg)
+	}
+}
+
+func (j *c04Judge) twoRows(acc *dtAcc, vr *dtVariant, v1, v2 *dtVal, maxLen int, mode dtCmpMode, tol int64, reg string) {
+	f1, f2 := dtRefField(vr, v1, maxLen), dtRefField(vr, v2, maxLen)
+	if f1 != f2 {
+		return // the two values need different formats (precision / scale)
+	}
+	re1, e1 := dtRefEncode(vr, v1)
+	re2, e2 := dtRefEncode(vr, v2)
+	if e1 != nil || e2 != nil {
+		return
+	}
+	if (vr.K == dkBytes || vr.K == dkStr) && (len(v1.B) > maxLen || len(v2.B) > maxLen) {
+		return
+	}
+	acc.evals++
+	acc.counts["two_rows/"+vr.Name]++
+	g1, g2, stage, err, pi := dtPkgTwoRows(f1, re1.bs, re2.bs)
+	cs := dtCase{Type: vr.label(), Dir: "two-rows", V: *v2, Prev: v1, Wire: hex.EncodeToString(re1.bs) + "|" + hex.EncodeToString(re2.bs)}
+	switch {
+	case stage == "harness":
+		return
+	case pi != nil:
+		j.agg.add("panic|"+pi.Frame, vr, "", fmt.Sprintf("two ROWs under one format (%s, then %s) panicked in %s: %s", dtDescribe(v1), dtDescribe(v2), stage, pi.Value), cs)
+	case err != nil:
+		j.agg.add("two-rows", vr, reg, fmt.Sprintf("ROW(%s) followed by ROW(%s) under one ROWFMT2: stage %s failed: %v", dtDescribe(v1), dtDescribe(v2), stage, err), cs)
+	default:
+		w1, w2 := dtGridBelow(vr, v1, re1.canonical), dtGridBelow(vr, v2, re2.canonical)
+		if ok, why := dtSameValue(vr, &w2, g2, mode, tol); !ok {
+			j.agg.add("two-rows", vr, reg, fmt.Sprintf("second of two rows (%s after %s) decoded as: %s", dtDescribe(&w2), dtDescribe(&w1), why), cs)
+		} else if ok, why := dtSameValue(vr, &w1, g1, mode, tol); !ok {
+			j.agg.add("two-rows|first-row-changed-by-the-second", vr, reg, fmt.Sprintf("first of two rows under one format holds %s before, but after the second row (%s) was decoded its value reads: %s", dtDescribe(&w1), dtDescribe(&w2), why), cs)
 		}
 	}
 }
@@ -368,6 +440,7 @@ func runC04(c *Ctx) {
 			return
 		}
 		acc := newDtAcc(r)
+		j.replayPrev = cs.Prev
 		j.visit(acc, vr, &cs.V, true)
 		acc.flush()
 		j.agg.flush(r, true)
